@@ -9,6 +9,7 @@ that is a genuine value source).
 Nothing here runs griddle code.
 """
 import json
+import os
 from collections import defaultdict
 
 from mirfmt import fmt_place, fmt_op, fmt_rv, fmt_term, fmt_span, fmt_body  # noqa: F401
@@ -110,6 +111,9 @@ class Body:
     def __init__(self, facts, raw):
         self.facts = facts
         self.raw = raw
+        if not os.environ.get("VERIF_NONORM"):
+            from normalize import thread_flags
+            thread_flags(raw, facts.types)
         self.path = raw["path"]
         self.dpath = raw["dpath"]
         self.name = raw.get("name", "")
